@@ -32,7 +32,8 @@ def run(prog, an, rep):
                'not decided')
     rep.run_rules(prog, an, [branch_once, pr_once, pr_matching,
                              parent_id_round_trip, name_builders,
-                             redirects, declined_cleanup, merge_cleanup])
+                             redirects, declined_cleanup,
+                             declined_before_other_exits, merge_cleanup])
 
 
 def branch_once(prog, an, rep):
@@ -400,6 +401,53 @@ def declined_cleanup(prog, an, rep):
                   'DECLINED pull request', h.where(n), 'cleanup of '
                   'integration data runs for a pull request that is not '
                   'declined', path=ch.describe_path(path))
+
+
+def declined_before_other_exits(prog, an, rep):
+    """In _handle_pull_request the DECLINED test precedes every other way
+    out of the job once the repository is cloned: a declined pull request
+    whose source branch was deleted (or already merged) is still cleaned."""
+    R = 'C19.MPT.declined-first'
+    f = need_func(an, GWF + '._handle_pull_request')
+    c = an.cfg(f)
+    clone = an.gate_nodes(f, Spec.func('bert_e.workflow.git_utils.'
+                                       'clone_git_repo'), depth=0)
+    tests = [t for t in an.test_nodes(
+        f, lambda e: isinstance(e, ast.Compare) and
+        src(e.left).endswith('pull_request.status') and
+        isinstance(e.comparators[0], ast.Constant) and
+        e.comparators[0].value == 'DECLINED')]
+    if not tests or not clone:
+        rep.violation(R, f.qname + ': DECLINED test', f.where(),
+                      'no test of the DECLINED status after the clone')
+        return
+    after = set()
+    for g in clone:
+        after |= c.reachable(start=g, use_exc=False)
+    exits = [n for n in c.nodes.values() if n.id in after and
+             n.kind in ('raise_stmt', 'return')]
+    rep.floor('C19 exits after the clone', len(exits), 5)
+    gates = [t.id for t in tests]
+    for n in exits:
+        rep.evaluated()
+        ok, path = c.must_pass(gates, n.id)
+        rep.check(ok, R, '%s: DECLINED is tested before the exit at L%d' % (
+            f.qname, n.lineno), f.where(n), 'the job can end (%s) before '
+            'the DECLINED status was looked at: integration branches and '
+            'pull requests of a declined pull request are left behind' %
+            src(n.ast)[:40], path=c.describe_path(path))
+    h = need_func(an, GWF + '.handle_commit')
+    ch = an.cfg(h)
+    some = an.branch_nodes(h, lambda e: src(e) == 'candidates', True)
+    qn = [n for n in ch.nodes.values() if n.kind == 'stmt' and
+          'get_pull_requests(' in src(n.ast)]
+    for n in qn:
+        ok, path = ch.must_pass(some, n.id)
+        rep.check(ok and bool(some), 'C19.MPT.nonempty-query', h.qname +
+                  ': pull requests are looked up for a non-empty candidate '
+                  'list', h.where(n), 'get_pull_requests(src_branch=[]) is '
+                  'possible (no filter on GitHub)',
+                  path=ch.describe_path(path))
 
 
 def merge_cleanup(prog, an, rep):
